@@ -249,7 +249,7 @@ VmString *vm_string_concat(VmHeap *heap, VmString *a, VmString *b) {
 
 VmString *vm_string_substr(VmHeap *heap, VmString *s, uint32_t start, uint32_t len) {
     if (start >= s->length) return vm_string_new(heap, "", 0);
-    if (start + len > s->length) len = s->length - start;
+    if (len > s->length - start) len = s->length - start; /* start + len can wrap */
     return vm_string_new(heap, s->data + start, len);
 }
 
